@@ -16,7 +16,7 @@ A_SUB = "A-SUBCLASS: only the term / encoder / adapter classes defined in /repo/
 A_ABS = "A-ABSITER / A-GENDRAIN: input iterables of unknown length deliver items of the declared sort and are not mutated while consumed; a generator consumed through its contract takes effect at the point of consumption"
 A_RDFLIB = "A-RDFLIB: rdflib term classes are read through the generic term datatype (URIRef/BNode identified with their string values, Literal = (str(term), language, datatype)); rdflib's type-strict __eq__, stores, NamespaceManager and plugin loading are outside the contracts"
 A_IO = "A-IO: binary sources (read/seek exact on seekable sources, BufferedReader.peek may return fewer bytes than asked), the upb wire parser (arbitrary frames, enum fields within range: A-IO-ENUM) and file writers are trusted models / outside the contracts"
-A_TQ = "T-QUOTED: Decoder.decode_quoted_triple is a trusted opaque contract (some quoted-triple term or an error)"
+A_TQ = "Q-NESTED: quoted triples are under contract for structure and safety only (reader: some quoted-triple term or refusal, tables stay spec tables; writer: completeness and accounting); the nested denotation is bounded"
 QUOTED = "nested denotation of quoted triples is not carried by the contracts (completeness, entry-row accounting and LRU accounting are); it is covered by the bounded net only"
 ENCODER = COMMON + [A_OD, A_STR, A_SUB, QUOTED]
 
@@ -37,7 +37,7 @@ PROPS = {
             "note": "Library models A-OD, A-STR, A-PROTO assumed; nested quoted-triple denotation and row-kind vs physical-type at whole-stream level are bounded."},
     "C04": {"level": "other", "technique": TECH_M, "assumptions": COMMON + [A_PROTO, A_DQ, A_ABS, A_TQ, A_NOOPT],
             "explanation": "proof: for any row sequence the reader's tables are the spec tables (iter_rows invariant; per row: an entry row performs exactly the spec assignment, a triple row yields the spec decoding, exactly statement and namespace rows are yielded), decode_iri/literal/statement/triple/quad/graph_start/namespace_declaration compute the spec rules with exact raise conditions, Decoder.__init__ starts from empty spec tables of the declared sizes, parse_*_stream use one decoder per stream and the adapter of the physical type; bounded: quoted triples, rdflib adapters, byte-level entry points on reference-encoder streams with arbitrary legal producer choices.",
-            "note": "Mostly proved; decode_quoted_triple is a trusted opaque contract, rdflib adapters and entry points are bounded."},
+            "note": "Mostly proved; nested denotation of quoted triples, rdflib adapters and entry points are bounded."},
     "C05": {"level": "proof", "technique": TECH_P, "assumptions": COMMON + [A_OD, A_DQ, A_NOOPT],
             "explanation": "inductive invariant over all lookup histories, all sizes and key alphabets: constructors establish and every Lookup/LookupEncoder/LookupDecoder operation preserves the coupling with the Jelly spec table; mirror lemmas compose writer and reader contracts (the reader resolves exactly the writer's key)",
             "note": "LRU victim choice is left nondeterministic; integers mathematical."},
